@@ -62,6 +62,7 @@ def run_case(case, drv, nmax=None):
     form = case["form"]
     tier_n = nmax or 14
     o, outcome = FU.build_form(case)
+    FU.check_fresh_twin(o, case["form"], res)
     res.features += [f"form:{form}", f"heur:{outcome if outcome in (None, 'ok') else 'raised'}", f"mode:{'feas' if case['feas'] else 'opt'}",
                      f"rho:{case['rho']}"]
     if outcome not in (None, "ok"):
